@@ -26,7 +26,7 @@ Top == RunTop(Def, argv)
 NoPanicSite == Obs.outcome # "Panic"
 IgnoreErrorsOk == P01(Def, Obs, TRUE)
 RelationsHold == P03(Def, Obs)
-SourcesHonest == P06(Def, Obs, Obs)
+SourcesHonest == P06(Def, Obs, Obs) /\ P06Supplied(Def, Obs, Top)
 ActionsFold == P07(Def, Obs, Top)
 AttributionSound == IndexDistinct(Def, Obs) /\ (Obs.outcome = "Ok" => ValuesFromArgv(Def, EffArgv(Def, argv), Obs))
 TailVerbatim == P05(Def, EffArgv(Def, argv), Obs, Top) /\ P05Err(Def, Obs, Top) /\ P05Keep(Def, EffArgv(Def, argv), Obs, Top)
